@@ -1441,6 +1441,21 @@ orc_compiler_get_temp_constant (OrcCompiler *compiler, int size, int value)
   return tmp;
 }
 
+#ifdef ORC_VERIF_HOOKS
+/* ORC_VERIF_POOL=1: report every request to the constant pool (index used or -1 when the
+ * pool is full, pool length afterwards, how the request was answered) */
+static int
+orc_verif_pool (void)
+{
+  static int on = -1;
+  if (on < 0) on = getenv ("ORC_VERIF_POOL") != NULL;
+  return on;
+}
+#define ORC_VERIF_POOL_EMIT(...) do { if (orc_verif_pool ()) ORC_VERIF_EMIT (__VA_ARGS__); } while (0)
+#else
+#define ORC_VERIF_POOL_EMIT(...) do { } while (0)
+#endif
+
 int
 orc_compiler_get_constant (OrcCompiler *compiler, int size, int value)
 {
@@ -1466,6 +1481,8 @@ orc_compiler_get_constant (OrcCompiler *compiler, int size, int value)
   if (i == compiler->n_constants) {
     if (compiler->n_constants >= ORC_N_CONSTANTS) {
       /* the pool is full: load the value without remembering it */
+      ORC_VERIF_POOL_EMIT ("\"e\":\"Const\",\"k\":\"s%08x\",\"long\":0,\"try\":0,\"idx\":-1,\"n\":%d,"
+          "\"how\":\"temp\"", v, compiler->n_constants);
       tmp = orc_compiler_get_temp_reg (compiler);
       orc_compiler_load_constant (compiler, tmp, size, value);
       return tmp;
@@ -1478,6 +1495,8 @@ orc_compiler_get_constant (OrcCompiler *compiler, int size, int value)
   }
 
   compiler->constants[i].use_count++;
+  ORC_VERIF_POOL_EMIT ("\"e\":\"Const\",\"k\":\"s%08x\",\"long\":0,\"try\":0,\"idx\":%d,\"n\":%d,"
+      "\"how\":\"%s\"", v, i, compiler->n_constants, compiler->constants[i].alloc_reg != 0 ? "reg" : "temp");
 
   if (compiler->constants[i].alloc_reg != 0) {;
     return compiler->constants[i].alloc_reg;
@@ -1526,6 +1545,8 @@ orc_compiler_try_get_constant_long (OrcCompiler *compiler,
   }
   if (i == compiler->n_constants) {
     if (compiler->n_constants >= ORC_N_CONSTANTS) {
+      ORC_VERIF_POOL_EMIT ("\"e\":\"Const\",\"k\":\"l%08x%08x%08x%08x\",\"long\":1,\"try\":1,\"idx\":-1,"
+          "\"n\":%d,\"how\":\"none\"", a, b, c, d, compiler->n_constants);
       return ORC_REG_INVALID;
     }
     compiler->n_constants++;
@@ -1539,6 +1560,9 @@ orc_compiler_try_get_constant_long (OrcCompiler *compiler,
   }
 
   compiler->constants[i].use_count++;
+  ORC_VERIF_POOL_EMIT ("\"e\":\"Const\",\"k\":\"l%08x%08x%08x%08x\",\"long\":1,\"try\":1,\"idx\":%d,"
+      "\"n\":%d,\"how\":\"%s\"", a, b, c, d, i, compiler->n_constants,
+      compiler->constants[i].alloc_reg != 0 ? "reg" : "none");
 
   if (compiler->constants[i].alloc_reg != 0) {;
     return compiler->constants[i].alloc_reg;
